@@ -1548,7 +1548,7 @@ def _send_dav_responses(responses, out_encoding):
 
 def _send_simple_dav_error(request, statuscode, error, description):
     status = Status(
-        request.url, statuscode, error=error, responsedescription=description
+        request.path, statuscode, error=error, responsedescription=description
     )
     return _send_dav_responses(status, DEFAULT_ENCODING)
 
@@ -1808,7 +1808,7 @@ class PropfindMethod(Method):
             request, environ
         )
         if base_resource is None:
-            yield Status(request.url, "404 Not Found")
+            yield Status(request.path, "404 Not Found")
             return
         # Default depth is infinity, per RFC2518
         depth = request.headers.get("Depth", "infinity")
@@ -1851,7 +1851,7 @@ class ProppatchMethod(Method):
     async def handle(self, request, environ, app):
         href, unused_path, resource = app._get_resource_from_environ(request, environ)
         if resource is None:
-            yield Status(request.url, "404 Not Found")
+            yield Status(request.path, "404 Not Found")
             return
         et = await _readXmlBody(request, "{DAV:}propertyupdate", strict=app.strict)
         propstat = []
@@ -1869,7 +1869,7 @@ class ProppatchMethod(Method):
                     )
                 ]
             )
-        yield Status(request.url, propstat=propstat)
+        yield Status(request.path, propstat=propstat)
 
 
 class MkcolMethod(Method):
